@@ -420,6 +420,22 @@ func (x *Exec) assignTo(l ast.Expr, v *Val, st *St, fr *Frame, define bool) {
 			st.heap[g.Key] = nw
 			return
 		}
+		if _, isSlice := fr.typeOf(n.X).Underlying().(*types.Slice); isSlice && m.T != nil && m.T.Sort.IsSeq() && key.T != nil {
+			// x.f[i] = v on a slice stored in a heap field (written in place: no alias of the slice is involved)
+			if _, isField := ast.Unparen(n.X).(*ast.SelectorExpr); !isField {
+				oos("element assignment to a slice that is not a struct field at %s (aliasing of slices is not modelled)", x.W.pos(n.Pos()))
+			}
+			x.safety(st, fr, And(Cmp("<=", IntLit(0), key.T), Cmp("<", key.T, SeqLen(m.T))), "index", n.Lbrack)
+			et := fr.typeOf(n.X).Underlying().(*types.Slice).Elem()
+			ev := x.coerce(st, v, et)
+			ns := x.fresh("upd", m.T.Sort)
+			j := Var("j$", SInt)
+			x.assume(st, Eq(SeqLen(ns), SeqLen(m.T)))
+			x.assume(st, Eq(SeqAt(ns, key.T), ev.T))
+			x.assume(st, Forall([]*Term{j}, [][]*Term{{SeqAt(ns, j)}}, Implies(And(Cmp("<=", IntLit(0), j), Cmp("<", j, SeqLen(m.T)), Neq(j, key.T)), Eq(SeqAt(ns, j), SeqAt(m.T, j))), "seq_update"))
+			x.assignTo(n.X, &Val{T: ns, Ty: fr.typeOf(n.X)}, st, fr, false)
+			return
+		}
 		oos("unsupported indexed assignment at %s", x.W.pos(n.Pos()))
 	default:
 		oos("unsupported assignment target %T at %s", l, x.W.pos(l.Pos()))
@@ -652,11 +668,9 @@ func (x *Exec) callEffect(call *ast.CallExpr, f *Frame, st *St, depth int, bind 
 	pureLoc func(ast.Expr, *Frame) *Term, addLoc func(string, *Term), scan func([]ast.Node, *Frame, int, map[types.Object]ast.Expr)) {
 	fun := ast.Unparen(call.Fun)
 	if depth == 0 && x.C != nil && !f.inlined {
-		for _, h := range x.C.Afters {
-			if h.Callee == calleeName(call) {
-				if g, ok := x.W.GhostVars[h.Var]; ok {
-					addLoc(g.Key, nil)
-				}
+		for _, h := range x.afterHooksFor(call, f) {
+			if g, ok := x.W.GhostVars[h.Var]; ok {
+				addLoc(g.Key, nil)
 			}
 		}
 	}
@@ -1087,7 +1101,11 @@ func (x *Exec) rangeStmt(n *ast.RangeStmt, st *St, fr *Frame, k func(*St)) {
 				x.assignTo(n.Key, &Val{T: i, Ty: types.Typ[types.Int]}, st, fr, define)
 			}
 			if n.Value != nil && !isInt {
-				x.assignTo(n.Value, &Val{T: SeqAt(seq, i), Ty: elemType(rv.Ty)}, st, fr, define)
+				ev := &Val{T: SeqAt(seq, i), Ty: elemType(rv.Ty)}
+				if strings.HasPrefix(rv.Proto, "each.") {
+					ev.Proto = strings.TrimPrefix(rv.Proto, "each.")
+				}
+				x.assignTo(n.Value, ev, st, fr, define)
 			}
 		}
 		// unroll literal sequences when there is no loop contract
